@@ -213,7 +213,15 @@ const (
 func checkAll(s *PebbleScanner, m *storeModel, scope checkScope, withExport bool, tag string) *vs.Violation {
 	// by ID
 	ids := append([]string(nil), poolIDs...)
-	for _, id := range m.ids() {
+	mids := m.ids()
+	stride := 1
+	if len(mids) > 300 {
+		stride = 23 // bulk-loaded models: sample the by-ID lookups (listing, counts, statistics and scans still cover every signature)
+	}
+	for k, id := range mids {
+		if stride > 1 && k%stride != 0 && k != len(mids)-1 && !strings.HasPrefix(id, "SFW-AUTO-") && len(id) > 4 {
+			continue
+		}
 		found := false
 		for _, p := range ids {
 			if p == id {
